@@ -1703,6 +1703,11 @@ def _hkey(spec_id, solver, hist):
     return hashlib.md5(json.dumps([spec_id, solver, hist], sort_keys=True).encode()).hexdigest()[:16]
 
 
+def _rank(spec, solver, wit):
+    """preference among witnesses of one key: shortest, then on a hand-built base, then a fixed order"""
+    return (len(wit), 0 if spec["id"] in ("B0", "B1", "B2") else 1, spec["id"], solver, json.dumps(wit))
+
+
 def _record(agg, spec, solver, hist, res):
     agg["evaluations"] += 1
     agg["steps"] += res["executed"]
@@ -1717,7 +1722,7 @@ def _record(agg, spec, solver, hist, res):
             key = refine(key, wit)
         cur = agg["failures"].get(key)
         n = (cur[0] if cur else 0) + 1
-        if cur is None or len(wit) < len(cur[3]) or (len(wit) == len(cur[3]) and json.dumps(wit) < json.dumps(cur[3])):
+        if cur is None or _rank(spec, solver, wit) < _rank(cur[1], cur[2], cur[3]):
             agg["failures"][key] = [n, spec, solver, wit, text]
         else:
             cur[0] = n
@@ -1811,12 +1816,12 @@ def plan(tier, seed):
               (b0, "glpk", "core", 2, 1), (b1, "glpk_exact", "core", 2, 1)]
         rnd = ([b0, b1, b2] + gen_bases(seed, 5), 64, 80, 6)
     else:
-        ex = [(b0, "glpk", "core", 3, 0), (b1, "glpk_exact", "core", 3, 0), (b2, "glpk", "core", 3, 0), (b0, "glpk_exact", "core", 3, 1)]
+        ex = [(b0, "glpk", "core", 3, 0), (b1, "glpk_exact", "core", 3, 0), (b0, "glpk_exact", "core", 3, 1)]
         for b in (b0, b1, b2):
             for sv in ("glpk", "glpk_exact"):
                 ex.append((b, sv, "full", 2, 0))
         ex += [(b0, "glpk", "full", 2, 1), (b1, "glpk_exact", "quick", 2, 2)]
-        rnd = ([b0, b1, b2] + gen_bases(seed, 24), 320, 250, 8)
+        rnd = ([b0, b1, b2] + gen_bases(seed, 24), 256, 250, 8)
     return ex, rnd
 
 
@@ -1871,7 +1876,7 @@ def explore(mode, tier, seed, processes=16):
                     total["failures"][key] = [n, spec, solver, wit, text]
                 else:
                     cur[0] += n
-                    if len(wit) < len(cur[3]) or (len(wit) == len(cur[3]) and json.dumps(wit) < json.dumps(cur[3])):
+                    if _rank(spec, solver, wit) < _rank(cur[1], cur[2], cur[3]):
                         cur[1:] = [spec, solver, wit, text]
     failures = []
     for key in sorted(total["failures"]):
